@@ -183,6 +183,14 @@ func (idx *FlatIndex) Add(vector VectorNode) error {
 		return err
 	}
 
+	// Re-adding an ID that is still soft-deleted (update = remove + add): purge the
+	// pending deletions first, otherwise the stale mark would hide the new vector.
+	if idx.deletedNodes.Contains(vector.ID()) {
+		if err := idx.flushLocked(); err != nil {
+			return err
+		}
+	}
+
 	// Simply append the preprocessed vector to our flat storage
 	idx.vectors = append(idx.vectors, vector)
 	return nil
@@ -266,6 +274,12 @@ func (idx *FlatIndex) Remove(vector VectorNode) error {
 func (idx *FlatIndex) Flush() error {
 	idx.mu.Lock()
 	defer idx.mu.Unlock()
+
+	return idx.flushLocked()
+}
+
+// flushLocked is Flush without locking. The caller MUST hold the write lock.
+func (idx *FlatIndex) flushLocked() error {
 
 	// Quick exit if nothing to flush
 	deletedCount := int(idx.deletedNodes.GetCardinality())
